@@ -183,9 +183,17 @@ func RunRepl(prompt string, opts ...Option) {
 		rootDir = wd
 	}
 
+	// os.Root, unlike os.DirFS, also refuses symbolic links that lead out of
+	// the tree WithRootDir confines file access to.
+	root, rerr := os.OpenRoot(rootDir)
+	if rerr != nil {
+		errlnf("Cannot open root directory: %v", rerr)
+		os.Exit(1)
+	}
+
 	envOpts := []lisp.Config{
 		lisp.WithReader(parser.NewReader()),
-		lisp.WithLibrary(&lisp.FSLibrary{FS: os.DirFS(rootDir)}),
+		lisp.WithLibrary(&lisp.FSLibrary{FS: root.FS()}),
 	}
 
 	if cfg.stderr != nil {
